@@ -1,2 +1,5 @@
--- family compact: C29 C30 C34.  Everything listed here must build: it is part of `lake build`.
+-- family compact: C30 C34 C29.  Everything listed here must build: it is part of `lake build`.
 import Thanos.Driver.Compact
+import Thanos.Model.Planner
+import Thanos.Lemmas.Planner
+import Thanos.Props.C30
